@@ -71,7 +71,7 @@ func (prop) Describe() core.Description {
 		RealComponents: []string{"go-geom root package: Polygon, MultiPoint, MultiLineString, MultiPolygon, GeometryCollection (Push, accessors, Coords, Reverse, Swap, Clone, SetSRID, SetLayout) and the part constructors"},
 		StubComponents: []string{"the caller (seeded operation history, including rejected and self-aliasing operations)"},
 		FaultKinds:     []string{"rejected-push", "rejected-variadic-push", "self-alias-push"},
-		Probes:         []string{"probe:reserve-between-pushes", "probe:ring-of-the-next-polygon-pushed-onto-the-previous", "probe:one-object-twice-in-a-variadic-push", "probe:polygon(i)-after->=2-empty-polygons", "probe:push-after-leading-empties", "probe:reject-after-nonempty", "probe:reverse-with-empty-part", "probe:variadic-reject-at-j>0", "probe:swap", "probe:clone", "probe:same-stride-wrong-layout", "probe:empty-part", "probe:layout>4", "probe:persistent-polygon-push", "probe:persistent-polygon-pushed-into-receiver", "probe:push-onto-accessor-part", "probe:pushed-part-overwritten-afterwards"},
+		Probes:         []string{"probe:reserve-between-pushes", "probe:grown-own-part-pushed-back", "probe:ring-of-the-next-polygon-pushed-onto-the-previous", "probe:one-object-twice-in-a-variadic-push", "probe:polygon(i)-after->=2-empty-polygons", "probe:push-after-leading-empties", "probe:reject-after-nonempty", "probe:reverse-with-empty-part", "probe:variadic-reject-at-j>0", "probe:swap", "probe:clone", "probe:same-stride-wrong-layout", "probe:empty-part", "probe:layout>4", "probe:persistent-polygon-push", "probe:persistent-polygon-pushed-into-receiver", "probe:push-onto-accessor-part", "probe:pushed-part-overwritten-afterwards"},
 	}
 }
 
@@ -729,7 +729,16 @@ func (prop) Execute(scAny any, phase string, log *core.Log) core.Result {
 			kinds.WriteByte(op.K[4])
 		}
 		switch op.K {
-		case "push", "pushself", "pushmany", "reverse", "pushx", "bulk":
+		case "pushx":
+			// what was sliced from this receiver may legitimately change now -
+			// except that the part about to be pushed is read by this very call
+			keep := op.I % 2
+			for k := 0; k < 2; k++ {
+				if k != keep && xalias[k] == op.R {
+					xs[k], xm[k], xalias[k] = nil, nil, -1
+				}
+			}
+		case "push", "pushself", "pushmany", "reverse", "bulk":
 			dropAliases(op.R) // what was sliced from this receiver may legitimately change now
 		case "swap":
 			dropAliases(-1)
@@ -834,7 +843,46 @@ func (prop) Execute(scAny any, phase string, log *core.Log) core.Result {
 			}
 		case "pushx":
 			k := op.I % 2
-			if xs[k] == nil || tainted[op.R] {
+			if xs[k] == nil {
+				continue
+			}
+			if tainted[op.R] {
+				// The receiver's earlier parts are no longer asked about (its
+				// array was written through one of its own parts), but what is
+				// pushed now - possibly that very part, grown, lying in the
+				// receiver's spare capacity - must come back as pushed.
+				if xalias[k] != op.R || s.L == 0 {
+					continue
+				}
+				want := xm[k].Clone()
+				var err error
+				var last *geom.Polygon
+				if p := core.Guard(func() {
+					err = rv.mpg.Push(xs[k])
+					if err == nil {
+						last = rv.mpg.Polygon(rv.mpg.NumPolygons() - 1)
+					}
+				}); p != "" {
+					res.Fail("panic", "panic:MultiPolygon:"+core.PanicSite(p), "%s: Push of X%d (a grown part of the receiver itself) panicked: %s", after, k, p)
+					return res
+				}
+				res.Steps++
+				res.Count("probe:grown-own-part-pushed-back", 1)
+				log.Addf("%s X%d (own part, grown) into %s err=%v", after, k, names[op.R], err)
+				if err != nil {
+					res.Fail("push-refused", "push-refused:MultiPolygon", "%s: Push of X%d failed: %v", after, k, err)
+					return res
+				}
+				obs, oerr := mgeom.Observe(last)
+				if oerr == nil {
+					obs.S, want.S = 0, 0
+				}
+				if oerr != nil || mgeom.Diff(obs, want) != "" {
+					res.Fail("part-differs", "part-differs:MultiPolygon:own-part-pushed-back", "%s: the receiver's own part, grown by a ring and pushed back into the receiver, comes back as %s (%v); it was %s when pushed", after, obs, oerr, want)
+					return res
+				}
+				// the pushed part's storage may have been written by this push
+				xs[k], xm[k], xalias[k] = nil, nil, -1
 				continue
 			}
 			var err error
@@ -851,6 +899,10 @@ func (prop) Execute(scAny any, phase string, log *core.Log) core.Result {
 			}
 			mv.Parts = append(mv.Parts, xm[k].Clone())
 			successes++
+			if xalias[k] == op.R {
+				// the part was a view of the receiver it has just been pushed into
+				xs[k], xm[k], xalias[k] = nil, nil, -1
+			}
 		case "acc":
 			if len(mv.Parts) == 0 || tainted[op.R] {
 				continue
